@@ -160,6 +160,10 @@ func Encode(b []byte, n *tree.Node) []byte {
 
 var errShort = errors.New("refcodec: truncated")
 
+// AllowDuplicateTags makes Decode tolerate a repeated tag (C12: writing one field twice is misuse whose result
+// still has to be well-formed; C01/C08 never produce duplicates and keep this off).
+var AllowDuplicateTags = false
+
 func readRvarint(b []byte) (uint64, int, error) {
 	if len(b) == 0 {
 		return 0, 0, errShort
@@ -369,7 +373,7 @@ func Decode(b []byte) (*tree.Node, int, error) {
 				tag = uint16(table[i*3])
 				end = int(binary.BigEndian.Uint16(table[i*3+1:]))
 			}
-			if int(tag) <= prevTag {
+			if int(tag) < prevTag || (int(tag) == prevTag && !AllowDuplicateTags) {
 				return nil, 0, errors.New("refcodec: message table not strictly sorted by tag")
 			}
 			prevTag = int(tag)
